@@ -10,6 +10,7 @@ mod tlv;
 mod tlv_parse;
 mod lv;
 mod pod;
+mod token;
 
 use emit::Report;
 
@@ -76,6 +77,7 @@ fn main() {
         "C09" => (lv::run_c09(&ctx), 100),
         "C10" => (lv::run_c10(&ctx), 200),
         "C13" => (pod::run_c13(&ctx), 400),
+        "C16" | "C17" => (token::run(&ctx, &prop), 150),
         "C14" => (pod::run_c14(&ctx), 400),
         _ => {
             eprintln!("unknown property {}", prop);
